@@ -56,11 +56,16 @@ def main() -> None:
                 results.append({"pid": "corpus:" + cid, "raised": f"{type(exc).__name__}: {exc}"})
         print(json.dumps({"seed": os.environ.get("PYTHONHASHSEED"), "results": results}))
         return
-    checker = pyz.get_checker(job.get("settings") or None, fresh=True)
+    # every program is checked the way the command line checks a file: with a ClassAttributeChecker whose end-of-run
+    # reports (attribute_is_never_set) are part of the rendering
+    checker = pyz.get_checker(job.get("settings") or {"attribute_is_never_set": True}, fresh=True)
+    from pyanalyze.name_check_visitor import ClassAttributeChecker
     for item in job["sequence"]:
         try:
             module = pyz.make_module(item["src"])
-            fails = pyz.check_source(item["src"], checker=checker, module=module)
+            with ClassAttributeChecker(enabled=True, options=checker.options) as attribute_checker:
+                fails = pyz.check_source(item["src"], checker=checker, module=module, attribute_checker=attribute_checker)
+            fails = list(fails)  # the end-of-run reports were appended to the visitor's list when the block exited
             results.append({"pid": item["pid"], "render": render(fails, module.__name__)})
         except Exception as exc:  # noqa: BLE001
             results.append({"pid": item["pid"], "raised": f"{type(exc).__name__}: {exc}"})
